@@ -98,9 +98,16 @@ Definition spec_ok (c : scase) : bool :=
     releases its commit timestamp: [orc_done_commit] on every exit of Commit;
     [C37_begin_never_waits]); the specification violated by a call that does
     not return is C37's "operations always finish". *)
+(** Third kind: LSM maintenance calls executed under a watchdog (flush, a
+    compaction with [tables] output tables, then Close).  The compaction
+    executor is not part of the model (C37 is proof-partial); the case carries
+    only the specification's verdict: every call returned. *)
+Record mcase := { m_tables : N; m_flush : bool; m_compactions : list bool; m_reads_ok : bool; m_close : bool }.
+
 Inductive case :=
 | SchedCase (c : scase)
-| TxnCase (c : RunTxn.case).
+| TxnCase (c : RunTxn.case)
+| MaintCase (c : mcase).
 
 Definition check (c : case) : verdict :=
   match c with
@@ -108,6 +115,9 @@ Definition check (c : case) : verdict :=
   | TxnCase c =>
       let v := RunTxn.check c in
       mk_verdict (v_mismatch v) (v_violation v || negb (RunTxn.no_hang c)) 0
+  | MaintCase c =>
+      mk_verdict (negb (m_reads_ok c))
+                 (negb (m_flush c && forallb (fun b => b) (m_compactions c) && m_close c)) 0
   end.
 
 (* compact constructors *)
@@ -116,6 +126,9 @@ Definition Gr (t : N) (ran : bool) (p : list N) (r : list N) (cl : bool) : group
   {| gr_tid := t; gr_ran := ran; gr_picks := p; gr_ret := r; gr_closed := cl |}.
 Definition Cs (p : list (list cop)) (g : list group) (r : list (list bool)) : case :=
   SchedCase {| c_progs := p; c_groups := g; c_results := r |}.
+
+Definition Mt (tables : N) (flush : bool) (comp : list bool) (reads close : bool) : case :=
+  MaintCase {| m_tables := tables; m_flush := flush; m_compactions := comp; m_reads_ok := reads; m_close := close |}.
 
 (* transactional cases: the constructors of Corr.RunTxn with the prefix T *)
 Definition TCs g f l : case := TxnCase (RunTxn.Cs g f l).
